@@ -838,12 +838,16 @@ def probe_allow_modified_outputs(exe, base):
 
 class Check(PropertyCheck):
     prop = "C08"
-    module = "LLBuild.Props.C08"
+    module = "LLBuild.Props.C08All"
     theorems = ["LLBuild.BuildSystemClient." + t for t in (
         "C08_client_WF", "C08_outputs_clean", "C08_inputs_current", "C08_clean_source", "C08_clean_produced", "C08_clean_command",
         "C08_clean_is_eval", "C08_clean_unique", "C08_rule_dispatch", "C08_rule_signature_sources", "C08_file_input_valid_iff", "C08_command_valid_sound",
         "C08_never_valid", "C08_missing_command_forces", "C08_node_sig_tracks_producers", "C08_node_sig_changes",
-        "C08_directory_attribute")]
+        "C08_directory_attribute",
+        # Props/C08Gen.lean: histories with description edits (engine theorems over program generations instantiated)
+        "C08_client_SigCovers", "C08_client_SelfStable", "C08_outputs_clean_gen", "C08_outputs_eval_gen",
+        "C08_inputs_current_gen", "C08_command_sig_tracks_definition", "C08_changed_definition_reruns_gen",
+        "NeedProducerStable.C08_gen_needs_ProducerStable", "C08_SigCovers_needs_TargetsStable")]
     extractors = ["x_bsrules"]
     harnesses = []
     assumptions = [
@@ -853,9 +857,18 @@ class Check(PropertyCheck):
         "the frame argument (a produced path is written by one command and read only by tasks that requested its node) is the decidable "
         "well-formedness predicate `Desc.wf`, not a theorem about the file system",
         "discovered dependencies (deps files) are not part of this model (C11); directory-tree nodes are C12",
-        "description edits: the Lean instance is for one description; changed definitions are detected through signatures "
-        "(C08_node_sig_tracks_producers; command signatures are C09_sig_injective) and covered end to end by the history oracle",
-        "engine theorem C01_value is about the abstract engine; its tie to BuildEngine.cpp is C01's correspondence",
+        "description edits ARE proved (Props/C08Gen.lean: C08_outputs_clean_gen / C08_inputs_current_gen = C01_value_gen / C01_inputs_gen at "
+        "`fun g => client H (ds g)`; a description edit = the tool started again on the same database with another description), under three "
+        "explicit hypotheses: (1) the signature hash does not collide on the signature terms involved (`hH`; theorems are about pre-hash terms); "
+        "(2) `TargetsStable`: the target table is the same in every generation - a target rule has no signature, so the engine obligation "
+        "SigCovers fails for an edited target (C08_SigCovers_needs_TargetsStable) although a target's stored result is never reused; an edited "
+        "target is read as a new target index; (3) `ProducerStable`: a command that stays the single producer of a node keeps its tool class and "
+        "the node's position among its outputs - the node signature (type + producer names) does not cover getResultForOutput and the MODEL's "
+        "command value (one number standing for all output records, output j = mix h j) does not change when outputs are reordered, so without it "
+        "the statement is false on the model (C08_gen_needs_ProducerStable); the real command value is the list of stat records the new execution "
+        "left, which does change. Edits outside (2)/(3) are covered end to end by the history oracle only",
+        "engine theorems C01_value / C01_value_gen are about the abstract engine; their tie to BuildEngine.cpp is C01's correspondence; a "
+        "description edit is modelled as the engine's `restart` event with another Program (same database, every rule looked up again)",
     ]
     trusted_base = ["extractor x_bsrules (lookupRule dispatch, validity guards, forceChange, signature recipes)",
                     "python history oracle against the real `llbuild buildsystem build` (clean-build comparison, C09 re-run rule, C10 failure rules)",
